@@ -152,8 +152,19 @@ func (c *c20) roundTrip(what string, m interfaces.ConsensusMessage, km *varKM, w
 	// the same bytes in a fresh buffer of another capacity
 	cp := make([]byte, len(raw.Content), len(raw.Content)+1+c.rng.Intn(64))
 	copy(cp, raw.Content)
+	// ... which continues behind the message (the next frame of a receive buffer): parsing must leave those bytes alone
+	behind := cp[len(cp):cap(cp)]
+	for i := range behind {
+		behind[i] = 0xA5
+	}
 	raw2 := &interfaces.ConsensusRawMessage{Content: cp, Block: raw.Block}
 	back := interfaces.ToConsensusMessage(raw2)
+	for i := range behind {
+		if behind[i] != 0xA5 {
+			c.bad("parser-wrote-outside-the-bytes-it-was-given", fmt.Sprintf("%s: content of %d bytes inside a buffer of %d: after parsing, byte %d behind the content reads %#x (was 0xa5) — the next message in that buffer is corrupted", what, len(cp), cap(cp), i, behind[i]))
+			break
+		}
+	}
 	if back == nil {
 		c.bad("round-trip-yields-no-message", fmt.Sprintf("%s: h=%d v=%d inst=%d sender=%x", what, h, v, inst, sender))
 		return nil
